@@ -74,6 +74,7 @@ def run(rep, fb, tier):
     _l3.rule_kernel_one_sided(rep, fb)
     _l3.rule_extent_zero(rep, fb)
     _l3.rule_count_product(rep, fb)
+    _l3.rule_libc_null(rep, fb)
     __import__("vf.rules.jsonrules", fromlist=["x"]).rule_json_parameters(rep, fb)
     __import__("vf.rules.lints3", fromlist=["x"]).rule_bytemask_normalised(rep, fb)
     rep.units = fb.units
